@@ -109,6 +109,9 @@ def handle : Handler := fun op a => do
     let cfg ← decCfg (a.getD "cfg" (.obj []))
     let loc ← asStr (← field a "location")
     let ps ← asList decParam (← field a "params")
+    -- `from_open_api_to_json_schema`: keep supported keywords (tuple read from the live parameter class), x-*, nullable
+    let supported ← asList asStr (← field a "supported")
+    let ps := ps.map fun p => { p with schema := filterKeywords supported cfg.nn p.schema }
     let s := schemaForLocation cfg (fuelOf a) loc ps
     return jobj [("schema", .obj s), ("strategy_schema", .obj (injectHeaderFormat loc s))]
   | "regex" =>
